@@ -370,6 +370,9 @@ def op_spec(opname):
             sx.require(sym.Not(sym.eq(b, 0)), ZeroDivisionError)
             return sym.truncdiv(a, b) if opname == "truncdiv" else sym.truncrem(a, b)
         if is_kind(a, Integer):
+            if lb is None and (is_kind(b, Unsigned) or is_kind(b, Signed)):
+                # Integer._cohdl_<op>_ does not know vectors (NotImplemented): the REFLECTED method of the vector decides
+                return sem.rdivop(sx, b, la, opname)
             if lb is None:
                 sx.unspecified()
             sx.domain(sym.Not(sym.eq(lb, 0)))
@@ -399,3 +402,5 @@ for opname in ("truncdiv", "rem"):
     con.cases.append(Case("int-u", [PyInt("k"), UShape("w1", "a")], spec))
     con.cases.append(Case("int-s", [PyInt("k"), SShape("w1", "a")], spec))
     con.cases.append(Case("Integer-int", [IntegerShape("a"), PyInt("k")], spec))
+    con.cases.append(Case("Integer-u", [IntegerShape("k"), UShape("w1", "a")], spec))
+    con.cases.append(Case("Integer-s", [IntegerShape("k"), SShape("w1", "a")], spec))
